@@ -704,6 +704,7 @@ CH = "src/hypergraph/cache.py"
 SS = "src/hypergraph/runners/sync/superstep.py"
 AS = "src/hypergraph/runners/async_/superstep.py"
 VARIANTS = [
+    Variant("hmac-key-reread-over-fresh-key", CH, replace_once("            existing = f.read()\n        if len(existing) == 32:\n            return existing\n", "            key = f.read()\n        if len(key) == 32:\n            return key\n"), {"C09.R2"}),
     Variant("disk-set-skips-when-signature-row-matches", CH, replace_once("        # Store raw bytes — diskcache keeps bytes in binary mode, no extra pickling\n", "        if self._cache.get(key + self._HMAC_SUFFIX, default=None) == value_hmac:\n            return\n        # Store raw bytes — diskcache keeps bytes in binary mode, no extra pickling\n"), {"C09.R6"}),
     Variant("disk-get-signature-read-unguarded", CH, sub_once(r"        try:\n            stored_hmac = self\._cache\.get\(key \+ self\._HMAC_SUFFIX, default=None\)\n        except Exception:\n.*?            return False, None\n        if stored_hmac is None:", "        stored_hmac = self._cache.get(key + self._HMAC_SUFFIX, default=None)\n        if stored_hmac is None:"), {"C09.R3"}),
     Variant("hmac-over-payload-only", CH, replace_once("    msg = cache_key.encode() + raw_bytes\n", "    msg = raw_bytes\n"), {"C09.R2"}),
